@@ -111,16 +111,4 @@ def run(res, tier, seed, model_ok, search):
 
 
 def replay(payload):
-    import json
-    import simworld
-    sc = payload["replay"].get("scenario")
-    if not sc:
-        print("no scenario stored")
-        return 1
-    r = simworld.compare(sc)
-    print("model/implementation agree:", r["ok"], "crash:", r["crash"])
-    o = Oracle(sc)
-    run_ = simworld.Run(sc, hooks=o.hooks()).run()
-    for sig, what in o.finish(run_):
-        print("ORACLE", sig, what)
-    return 1 if o.v else 0
+    return simcheck.generic_replay("C04", payload)
